@@ -147,3 +147,53 @@ Theorem C01_source_idevice_deriv : forall n a b c bnd (s p : list R), IDevice_de
 Proof. exact gen_idevice_deriv. Qed.
 Theorem C01_source_idevice2_deriv : forall n pl ph bnd (s p : list R), IDevice2_deriv (A:=R) n pl ph bnd s p = idev2_deriv pl ph bnd s p.
 Proof. exact gen_idevice2_deriv. Qed.
+
+(* ---- the "equivalently" clause: total derivative along every direction, and the line integral along the segment ----------
+   Coordinate partials alone do not give either; exact partials in a neighbourhood together with continuity of the reported
+   marginal cost do (Proofs/Total.v: telescoping over the coordinates, mean value theorem, any length).
+   vnear x y r: sup-norm ball; gcont G x: every entry of G is continuous at x; dir_at F g x: for every direction d,
+   t |-> F (x + t d) has derivative <g, d> at 0; seg x y t = x + t (y - x). *)
+From DK.Proofs Require Import Total TotalLeaf.
+
+Theorem C01_partials_and_continuity_give_the_total_derivative : forall (F : list R -> R) (G : list R -> list R) (x : list R) (r : R),
+  0 < r -> (forall y, vnear x y r -> grad_at F (G y) y) -> gcont G x -> dir_at F (G x) x.
+Proof. exact total_from_partials. Qed.
+
+Theorem C01_line_integral_general : forall (F : list R -> R) (G : list R -> list R) (x y : list R) (r : R),
+  length y = length x -> 0 < r ->
+  (forall t, 0 <= t <= 1 -> forall z, vnear (seg x y t) z r -> grad_at F (G z) z) ->
+  (forall t, 0 <= t <= 1 -> gcont G (seg x y t)) ->
+  (forall t, length (G (seg x y t)) = length x) ->
+  is_RInt (fun t => dot (G (seg x y t)) (vsub y x)) 0 1 (F y - F x).
+Proof. exact line_integral. Qed.
+
+(* the classes whose marginal cost is continuous everywhere: Device, PVDevice, CDevice, CDevice2 (one range), IDevice
+   (natural exponents), IDevice2, GDevice - for ANY two flows of the right length (in bounds or not), any price.
+   PARTIAL for SDevice / TDevice / multi-range CDevice2 / ADevice: for those only the coordinate form above is proved
+   (a segment may cross the charge/discharge kink; the general theorem applies on kink-free segments once continuity of their
+   marginal cost is shown, which is not done here). *)
+Theorem C01_total_derivative_smooth_classes : forall n b cb k (p x : list R), length p = n -> length x = n -> smooth_kind k cb n ->
+  dir_at (fun s => leaf_cost (Build_leafdev n b cb k) s p) (leaf_deriv (Build_leafdev n b cb k) x p) x.
+Proof. exact smooth_classes_total. Qed.
+
+Theorem C01_line_integral_smooth_classes : forall n b cb k (p x y : list R), length p = n -> length x = n -> length y = n ->
+  smooth_kind k cb n ->
+  is_RInt (fun t => dot (leaf_deriv (Build_leafdev n b cb k) (seg x y t) p) (vsub y x)) 0 1
+          (leaf_cost (Build_leafdev n b cb k) y p - leaf_cost (Build_leafdev n b cb k) x p).
+Proof. exact smooth_classes_line. Qed.
+
+Theorem C01_smooth_kinds : forall (k : kind R) cbs n, smooth_kind k cbs n <->
+  match k with
+  | KDev | KPV | KC _ _ | KI2 _ _ | KG _ => True
+  | KI _ bp _ => nat_exponents bp n
+  | KC2 _ _ => exists c, cbs = [c]
+  | _ => False
+  end.
+Proof. intros; reflexivity. Qed.
+
+Example C01_line_integral_example :
+  is_RInt (fun t => dot (leaf_deriv (Build_leafdev 3 [(0, 4); (0, 4); (0, 4)] [] (KI2 (PS (-1)) (PS 2))) (seg [0; 0; 0] [1; 2; 3] t) [1; 1; 1])
+                        (vsub [1; 2; 3] [0; 0; 0])) 0 1
+          (leaf_cost (Build_leafdev 3 [(0, 4); (0, 4); (0, 4)] [] (KI2 (PS (-1)) (PS 2))) [1; 2; 3] [1; 1; 1]
+           - leaf_cost (Build_leafdev 3 [(0, 4); (0, 4); (0, 4)] [] (KI2 (PS (-1)) (PS 2))) [0; 0; 0] [1; 1; 1]).
+Proof. exact line_example. Qed.
